@@ -593,6 +593,89 @@ func unconditionalTargetWriteRule(c *Ctx) {
 	if n < 2 {
 		c.AnchorLost("Update/Create of the templated object in " + pkgObjTemplate)
 	}
+	// the cache-label patch of a source found only through the uncached reader
+	nl := 0
+	for _, fn := range p.FuncsIn(pkgObjTemplate) {
+		for _, cc := range callsIn(fn) {
+			if !isCallTo(cc.Common, pkgControllers+".AddDynamicCacheLabel") {
+				continue
+			}
+			nl++
+			o := c.Ob(fn, "source-cache-label", cc.Instr, "a source that is not served by the label-selected cache gets the cache label unconditionally (the selector requires the exact label value)")
+			var bad []string
+			for _, f := range p.FactsAt(cc.Instr.Block()) {
+				if !allowedWriteGuard(p, f) {
+					bad = append(bad, p.describeFact(f))
+				}
+			}
+			if len(bad) == 0 {
+				o.OK()
+			} else {
+				o.Fail("labelling the source for the cache is conditional on %s: a source that already carries the label key with another value never enters the informer, so later edits of it no longer re-render the template", strings.Join(bad, "; "))
+			}
+		}
+	}
+	if nl == 0 {
+		c.AnchorLost("AddDynamicCacheLabel call in " + pkgObjTemplate)
+	}
+}
+
+// applyEveryPassRule (C10 drift repair, C09 complement): the server-side apply of the desired object
+// in the patcher is unconditional — guarded only by error checks, never by a comparison with the
+// live object (a "skip if it already matches" shortcut hides drift that the comparison cannot see).
+func applyEveryPassRule(c *Ctx) {
+	p := c.P
+	n := 0
+	for _, fn := range p.FuncsIn(pkgControllers) {
+		if fn.Signature.Recv() == nil || fn.Name() != "Patch" {
+			continue
+		}
+		for _, ws := range allWriterSites([]*ssa.Function{fn}) {
+			if ws.Verb != "Patch" {
+				continue
+			}
+			n++
+			o := c.Ob(fn, "apply-patch", ws.Call.Instr, c.rule.Statement)
+			var bad []string
+			for _, f := range p.FactsAt(ws.Call.Instr.Block()) {
+				if !allowedWriteGuard(p, f) {
+					bad = append(bad, p.describeFact(f))
+				}
+			}
+			// and no early success return before the write that depends on such a comparison
+			for _, rc := range p.returnCases(fn) {
+				if canPrecede(rc.Ret, ws.Call.Instr) || rc.Ret.Block() == ws.Call.Instr.Block() {
+					continue
+				}
+				last := rc.Results[len(rc.Results)-1]
+				if !isNilConst(stripConv(last)) {
+					continue
+				}
+				if canPrecede(ws.Call.Instr, rc.Ret) {
+					continue // the normal success return after the write
+				}
+				for _, f := range rc.Facts {
+					if !allowedWriteGuard(p, f) {
+						bad = append(bad, "early success return at "+p.IPos(rc.Ret)+" under "+p.describeFact(f))
+					}
+				}
+			}
+			if len(bad) == 0 {
+				o.OK()
+			} else {
+				o.Fail("the apply of the desired object is conditional on %s: drift the comparison does not see (emptied values, appended list entries) is never repaired", strings.Join(dedupe(bad), "; "))
+			}
+		}
+	}
+	if n == 0 {
+		c.AnchorLost("Patch method issuing the server-side apply in " + pkgControllers)
+	}
+}
+
+const applyEveryPassStatement = "the patcher applies the full desired object on every pass: the apply is guarded only by error checks, not by the outcome of comparing desired and live object"
+
+func init() {
+	addRule("C10", Rule{ID: "C10.R6", Min: 1, Statement: applyEveryPassStatement, Run: applyEveryPassRule})
 }
 
 func allowedWriteGuard(p *Program, f Fact) bool {
